@@ -493,7 +493,13 @@ def ex_winterp(c):
     kw = {} if c.get("method", "linear") == "linear" and not c.get("explicit_method") else {"method": c.get("method", "linear")}
     def go(w, f):
         for op in pre:
-            wcall(w, op)
+            if op["k"] == "try":       # a request that is refused (or fails) and whose exception the caller catches: the object
+                try:                   # must behave afterwards as if it had never been made (seed C13k: grid stored before the check)
+                    wcall(w, op["op"])
+                except Exception:  # noqa
+                    pass
+            else:
+                wcall(w, op)
         return f(w)
     if c["mode"] == "n":
         woc, w, unch = wrun(x, y, lambda w: go(w, lambda w: w.interpolate(n=c["n"], **kw)))
@@ -911,6 +917,8 @@ def wcall(w, op):
     if k == "integral_match":
         kw = {"target_function_integral_method": op["trule"], "reference_function_integral_method": op["rrule"]}
         kw["alpha"] = op["alpha_f"] if "alpha_f" in op else fl(op["alpha"])
+        if "fstrategy" in op:
+            kw["fixed_points_finding_strategy"] = op["fstrategy"]
         if len(w.get()[0]) % 2:     # positional form (target rule first, reference rule second), keyword form otherwise
             return w.integral_match(kw.pop("target_function_integral_method"), kw.pop("reference_function_integral_method"), **kw)
         return w.integral_match(**kw)
@@ -1105,7 +1113,10 @@ def ex_reject_misc(c):
             from traffic_weaver.datasets import load_dataset
             return load_dataset(c["name"])
         if k == "unknown_strategy":
-            return sau.find_closest_element_indices_to_values(np.arange(4.0), np.array([1.5]), strategy=c["name"])
+            # the searched array against: a value between its elements, the array itself, some of its elements, one element
+            xs = np.arange(4.0) * (c.get("form", 0) % 3 + 1) - c.get("form", 0)
+            lk = {0: np.array([1.5]), 1: xs.copy(), 2: xs[1:3].copy(), 3: xs[:1].copy(), 4: list(xs)}[c.get("form", 0) % 5]
+            return sau.find_closest_element_indices_to_values(xs if c.get("form", 0) % 2 == 0 else list(xs), lk, strategy=c["name"])
         if k == "unknown_rule":
             return sau.integral(np.arange(4.0), np.arange(4.0), method=c["name"])
         if k == "unknown_method":
